@@ -264,7 +264,18 @@ fn pipeline(cfg: &Config, msgs: &[DltMessage], bounded: bool) -> Outcome {
             let ok = lcs_r.get_one(&m.lifecycle).is_some();
             delivered.lock().unwrap().push((m, ok));
         }
-        return finish_outcome(&delivered, &lcs_r, lw, true, None);
+        // the incremental protocol as a one-shot: a consumer that polls once after everything was published
+        let mut view: BTreeMap<LifecycleId, (u32, u64, u32)> = BTreeMap::new();
+        if let Some(rd) = lcs_r.read() {
+            for (id, b) in &rd {
+                if let Some(l) = b.get_one() {
+                    if l.lcs_w_refresh_idx > 0 {
+                        view.insert(*id, (l.nr_msgs, l.start_time, l.lcs_w_refresh_idx));
+                    }
+                }
+            }
+        }
+        return finish_outcome(&delivered, &lcs_r, lw, true, Some(view));
     }
 
     // bounded, threaded pipeline: every edge a sync_channel(cap) sent through the real helper
@@ -463,7 +474,9 @@ impl ExecCheck {
                 } else if o.delivered != self.reference.delivered {
                     return Some(("sequence_differs", format!("delivered {:?} != reference {:?}", o.delivered, self.reference.delivered)));
                 }
-                if !o.stale_incremental.is_empty() {
+                // judged only if the protocol works at all on the sequential reference (a tree that does not maintain
+                // refresh indices does not promise it)
+                if self.reference.stale_incremental.is_empty() && !o.stale_incremental.is_empty() {
                     return Some(("incremental_table_stale", format!("a consumer following the table by refresh index ends with stale entries: {:?}", o.stale_incremental)));
                 }
                 if o.table != self.reference.table {
